@@ -32,6 +32,12 @@ impl EventId {
     pub fn is_zero(self) -> bool {
         self.0 == 0
     }
+
+    /// Unix milliseconds encoded in the timestamp component.
+    #[inline]
+    pub fn unix_millis(self) -> u64 {
+        (self.0 >> (SHARD_ID_BITS + SEQUENCE_BITS)) + CUSTOM_EPOCH_MILLIS
+    }
 }
 
 impl fmt::Display for EventId {
@@ -64,6 +70,15 @@ pub struct EventIdGenerator {
 impl EventIdGenerator {
     pub fn new() -> Self {
         Self::default()
+    }
+
+    /// Never hand out ids below `id` again (ids recovered from the WAL after a restart).
+    pub fn advance_past(&mut self, id: EventId) {
+        let (millis, sequence) = (id.unix_millis(), (id.raw() as u16) & SEQUENCE_MASK);
+        if (millis, sequence) > (self.last_millis, self.sequence) {
+            self.last_millis = millis;
+            self.sequence = sequence;
+        }
     }
 
     pub fn next(&mut self, shard_id: u16) -> EventId {
